@@ -25,10 +25,10 @@ CHECKS = {
    text="Every obligation generated from the current source of ValueObj::try_{add,sub,mul,floordiv,mod,pow,gt,ge,lt,le,eq,ne,or}, From<i32>/From<bool> for ValueObj, checked_floordiv_i32/checked_floormod_i32, Context::eval_unary_val and the dispatchers Context::eval_bin / ValueObj::try_binary (each operator reaches the try_* function computing that operator) is discharged by Verus for all Int/Nat/Bool operands (no overflow, no division by zero, result equals the Python value or is None); Float classes, try_div and the float helpers' zero-divisor behaviour are discharged by loop-free full-domain Kani harnesses.",
    note="Assumed: vstd's specs of checked_* integer ops and of Rust's truncating / and %; std contracts of i32/u64::checked_pow and checked_neg (wrappers); the value part of checked_truediv (IEEE quotient) and float_divmod (CPython transcription) - CBMC cannot decide full-domain f64 division/fmod; f64 powf/powi (try_pow Float classes not carried); Nat operands above 2**53 in int/int true division. eval_const_bin/eval_const_expr above eval_bin (token -> OpKind, operand evaluation) are not under contract. Non-scalar arms (Str, List, Dict, Type) are R2-erased.",
    technique=TECH_V + " (class-copied contracts) + Kani/CBMC loop-free harnesses; counterexamples replayed on the real crate"),
- "C06": dict(engine="kani", category="proof",
-   text="PARTIAL: the fast subtyping judgement on the fieldless built-in types (Obj, Never, Int, Nat, Ratio, Float, Complex, Bool, Str, NoneType, Code, Frame, Error, Inf, NegInf, Type, ClassType, TraitType, Patch, NotImplementedType, Ellipsis, Failure). For all pairs Context::cheap_supertype_of answers with certainty and Context::supertype_of equals it; the relation is reflexive; transitive over all triples (Failure excluded: it is deliberately both top and bottom); Never is below and Obj above every type and nothing else is; Bool <: Nat <: Int <: Ratio <: Float <: Complex holds strictly and the numeric classes are unrelated to the other value classes. Kani loop-free over the finite domain (complete).",
-   note="Not carried: unions, intersections, refinements (singleton/enum types), polymorphic containers, user classes and traits (structural_supertype_of / nominal_supertype_of: reaching them from these classes fails the harness), i.e. T <: (T or U), (T and U) <: T and 'enum type below its class' are outside. Arms of the table that bind erased payloads (Mono, Subr, Poly, FreeVar, ...) are R2-erased. Derived PartialEq on fieldless variants is structural.",
-   technique=TECH_K),
+ "C06": dict(engine="kani+replay", category="proof",
+   text="PARTIAL. Proof part: the fast subtyping judgement on the fieldless built-in types (Obj, Never, Int, Nat, Ratio, Float, Complex, Bool, Str, NoneType, Code, Frame, Error, Inf, NegInf, Type, ClassType, TraitType, Patch, NotImplementedType, Ellipsis, Failure). For all pairs Context::cheap_supertype_of answers with certainty and Context::supertype_of equals it; the relation is reflexive; transitive over all triples (Failure excluded: it is deliberately both top and bottom); Never is below and Obj above every type and nothing else is; Bool <: Nat <: Int <: Ratio <: Float <: Complex holds strictly and the numeric classes are unrelated to the other value classes. Kani loop-free over all variant pairs/triples on the real table (complete for this finite domain). Bounded part, NOT counted as proved: a run-time-checked contract on the real Context::subtype_of (builtin context) over Never, Obj, 8 built-in classes, all unions of 2 (thorough: and 3) and intersections of 2 of {Bool, Nat, Int, Float, Str, NoneType} and 7 value enums: reflexive, bottom/top, tower, T <: (T or U), (T and U) <: T, enum below its class, union semantics, transitivity over all triples (35 k checks; thorough 110 k). It reports one finding per offending pair; the pairs listed in known_findings.txt are printed as KNOWN-FINDING.",
+   note="KNOWN FINDING (genuine, recorded, not repaired): the checker accepts {1} <: Bool and Bool <: (Bool or Str) but rejects {1} <: (Bool or Str) (likewise for intersections): transitivity fails for a refinement against a union/intersection. Not carried deductively: unions, intersections, refinements, polymorphic containers, user classes and traits (structural_supertype_of / nominal_supertype_of use hash sets, closures over iterators and unification: outside Verus and Kani); they are covered only by the bounded contract above. Arms of the table that bind erased payloads (Mono, Subr, Poly, FreeVar, ...) are R2-erased. Derived PartialEq on fieldless variants is structural.",
+   technique=TECH_K + "; plus run-time-checked contract on the real Context::subtype_of, exhaustive over a stated bounded universe of types (bounded stand-in, not counted)"),
  "C08": dict(engine="verus", category="proof",
    text="The WHOLE token iterator of the lexer (erg_parser/lex.rs Iterator::next with every function it calls; Token::new in token.rs; real text, Verus, for texts of up to 2**26-16 chars). One contract on Iterator::next, proved for every input: starting from the constructors' state (lemma_initial_state) every call keeps the invariant next_inv and never panics (no unwrap on None, no index, counter or column overflow, the interpolation stack never popped below its sentinel), returns None exactly after EOF, and every yielded item strictly decreases a natural-number measure, so `lex()` terminates with at most 2*(2*len+6) items. Indentation bookkeeping is exact: an Indent token opens exactly one level, a Dedent closes exactly one, no other Ok token touches the stack and EOF is only produced when every level is closed - an accepted text has as many Dedents as Indents. Positions: while the cursor is inside the text, every Ok step keeps pos_ok (column of the next token == number of source chars since the start of its line, line start exact), every token is emitted at the column/line recorded when its first char is consumed (emit_* contracts), after string literals with escapes, multi-line strings, comments, blank lines inside brackets and line continuations. The callees (consume/peek_*, emit_*, sync_col, accept, lex_comment, lex_multi_line_comment, lex_space_indent_dedent, lex_indent_dedent, lex_num/lex_num_dot/lex_ratio/lex_exponent/lex_bin/lex_oct/lex_hex, lex_symbol, lex_raw_ident, lex_single_str, lex_multi_line_str, lex_interpolation_mid, is_valid_*_symbol_ch, op_fix) are each under their own contract with loop invariants and decreases measures. A bounded replay of probe texts on the real lexer (position oracle: literal tokens are found in the source where they are reported) runs next to the proof in the thorough tier and as fallback.",
    note="Iterator::next is verified as 36 arm-group copies of the same verbatim text and contract (R2c: every arm of the top-level match keeps its body in exactly one copy). NOT verified (replaced by stubs, listed in trusted_base): the keyword table of lex_symbol (match on str literals; any non-layout kind assumed), the closure-fold over the indent stack in lex_indent_dedent (only: sum over an empty stack is 0), is_definable_operator, is_zero, the TokenKind::category table content, unicode_xid predicates (assumed: never true for line break/space), std String/Vec operations (wrappers), literal lengths computed by the rewriter (R9). The constructors Lexer::new/from_str are checked textually against initial_state, not verified (normalize_newline, chars().collect()). Position faithfulness is claimed for Ok steps (after a reported error positions are not claimed) and for the column/line bookkeeping; that a token's CONTENT equals its source text is not carried (strings are abstracted by length). Texts above 2**26-16 chars are outside the claim. Stack depth is not modelled (the recursion that overflowed the stack was found by reading and is fixed; the unit now rejects recursion in next as 'undecided' and the replay probes cover it).",
